@@ -130,14 +130,19 @@ def stream_oracle(ctx, w, rig, cfg, calls):
     return pdus
 
 
-def harness(ctx, M, id_w, seq_w):
+def harness(ctx, M, id_w, seq_w, grows=False):
     w = World(ctx)
     ids = Ids(id_w, seq_w)
     rig, cfg = setup(ctx, w, ids, M)
     o = rig.put()
     ctx.prop("put_accepted", o.exc is None and o.ret is True, lambda: {"sig": rigs.exc_name(o.exc)})
     calls = []
-    for _ in range(M + 4):
+    for k in range(M + 4):
+        if grows and k == 1:
+            # the source file is still being written: it grows after the transaction has started. What is
+            # sent and checksummed is the file as announced in the Metadata PDU
+            rig.fs.grow_source_file("/src/file.bin", ctx.int("grow", 1, 64))
+            ctx.covered("source_file_grew")
         o = rig.sm()
         calls.append(o)
         if o.exc is not None or "EOF" in o.kinds():
@@ -208,6 +213,10 @@ def plan(tier):
         specs.append(Spec(f"src-stream/M={m}/w{iw}.{sw}", "vf.harness.c07:harness",
                           {"M": m, "id_w": iw, "seq_w": sw}, twin_share=0.25,
                           obligations=[f"segments={k}" for k in range(0, m + 1)]))
+        if (iw, sw) == (2, 2):
+            specs.append(Spec("src-stream/source-file-grows/M=2/w2.2", "vf.harness.c07:harness",
+                              {"M": 2, "id_w": 2, "seq_w": 2, "grows": True}, twin_share=0.25,
+                              obligations=["source_file_grew"]))
         specs.append(Spec(f"src-ack-of-finished/w{iw}.{sw}", "vf.harness.c07:h_ack_of_finished",
                           {"id_w": iw, "seq_w": sw}, twin_share=0.25))
     return specs
